@@ -325,3 +325,19 @@ def expected_into(parts, dst, create, spec):
             out.append((7, b"" if port == 0 else bytes([port]) if port < 256 else bytes([port >> 8, port & 255])))
     out += [(11, v) for v in po] + [(15, v) for v in qo]
     return out
+
+
+def ref_unix_path(host, pmax):
+    """sun_path for a Unix-domain URI host: complete %2F / %2f escapes become '/', nothing else is
+    decoded; at most pmax - 1 bytes; a C string (ends at a NUL byte)"""
+    out = bytearray()
+    i = 0
+    while i < len(host):
+        if host[i:i + 3] in (b"%2F", b"%2f"):
+            out.append(0x2f)
+            i += 3
+        else:
+            out.append(host[i])
+            i += 1
+    out = bytes(out[:pmax - 1])
+    return out.split(b"\x00")[0]
